@@ -79,6 +79,10 @@ def first_line(path):
 
 
 def main():
+    for d in sorted(glob.glob(os.path.join(VERIF, "seeded", "*", "meta.json"))):  # later rounds keep their note in meta.json
+        m = json.load(open(d))
+        if m.get("note"):
+            STRENGTHENED.setdefault(os.path.basename(os.path.dirname(d)), m["note"])
     rows = ["| change | property | what it breaks / needs | confirmed (demo 0/1, suite) | quick check | class reported | note |", "|---|---|---|---|---|---|---|"]
     for d in sorted(glob.glob(os.path.join(VERIF, "seeded", "*"))):
         mp = os.path.join(d, "meta.json")
@@ -97,7 +101,7 @@ def main():
         rows.append(f"| {name} | {m['property']} | {desc} | {conf} | {m.get('verdict')} ({m.get('check_wall_s')} s) | {cls} | {STRENGTHENED.get(name, '')} |")
     n_all = len(rows) - 2
     n_missed = sum(1 for k, v in STRENGTHENED.items() if "MISSED" in v and os.path.exists(os.path.join(VERIF, "seeded", k)))
-    n_still = sum(1 for k, v in STRENGTHENED.items() if (v.startswith("MISSED, and still missed:") or v.startswith("MISSED at first, and marginal now:")) and os.path.exists(os.path.join(VERIF, "seeded", k)))
+    n_still = sum(1 for k, v in STRENGTHENED.items() if (v.startswith("MISSED, and still missed:") or v.startswith("MISSED, and not pursued:") or v.startswith("MISSED at first, and marginal now:")) and os.path.exists(os.path.join(VERIF, "seeded", k)))
     rows.append("")
     rows.append(f"Totals: {n_all} confirmed seeded changes; {n_all - n_missed} were caught by the quick check as it stood when the change "
                 f"arrived, {n_missed} were missed (or would have been) and led to the strengthening described in the last column; "
